@@ -280,6 +280,15 @@ func c18vars(log *[]string, empty bool) jet.VarMap {
 	return vars
 }
 
+var c18directed = []struct{ src, want string }{
+	{`{{ if true }}{{ x := "inner" }}{{ letglobal("x", "global") }}[{{ x }}]{{ end }}[{{ x }}]`, "[inner][global]"},
+	{`{{ range i := ints(0, 2) }}{{ x := "loop" }}{{ letglobal("x", "G") }}({{ x }}){{ end }}({{ x }})`, "(loop)(loop)(G)"},
+	{`{{ block b(x="param") }}{{ letglobal("x", "BG") }}<{{ x }}>{{ end }}[{{ x }}]`, "<param>[BG]"},
+	{`{{ try }}{{ x := "t" }}{{ letglobal("x", "TG") }}<{{ x }}>{{ end }}[{{ x }}]`, "<t>[TG]"},
+	{`{{ if true }}{{ x := "a" }}{{ if true }}{{ x := "b" }}{{ letglobal("x", "G2") }}{{ x }}{{ end }}{{ x }}{{ end }}{{ x }}`, "baG2"},
+	{`{{ if true }}{{ rv := "shadow" }}{{ letglobal("rv", "RG") }}{{ rv }}{{ end }}|{{ rv }}`, "shadow|RG"},
+}
+
 func c18n(tier string) int {
 	if tier == "thorough" {
 		return 1000000
@@ -291,6 +300,22 @@ func c18run(c *fw.Ctx, idx int) {
 	r := c.Rand(idx, "c18")
 	if idx%4 == 3 {
 		c18args(c, idx, r)
+		return
+	}
+	if idx%4 == 0 && idx/4 < len(c18directed) {
+		// LetGlobal has no syntax twin where an inner scope declares the same name: judged against the stated meaning
+		d := c18directed[idx/4]
+		c.Begin(idx, map[string]interface{}{"directed": "LetGlobal binds in the outermost template scope, whatever is declared further in", "template": d.src})
+		defer c.End()
+		var log []string
+		res := jx.Run(map[string]string{"/main.jet": d.src, "/inc.jet": `{{ x := "inc" }}{{ letglobal("x", "IG") }}<{{ x }}>`}, "/main.jet", c18vars(&log, false), "root-ctx", jx.NoEscape)
+		c.Eval(1)
+		c.Count("directed_letglobal_cases", 1)
+		if res.Failed() || res.Out != d.want {
+			c.Violation(fmt.Sprintf("c18:directed-letglobal:%d", idx/4), "", fmt.Sprintf("%s rendered %s, want %q", d.src, res, d.want))
+			return
+		}
+		c.Distinct(fmt.Sprintf("directed-letglobal|%d", idx/4))
 		return
 	}
 	g := &c18gen{r: r, feat: map[string]bool{}, allowFail: idx%2 == 0}
